@@ -1,2 +1,32 @@
-From Astisub Require Import Kit.Base.
-Theorem C07_placeholder : True. Proof. exact I. Qed.
+(* C07 — Any-to-any conversion (library file API and CLI) preserves cues.
+   What the model carries today: the extension dispatch (case-insensitive; unsupported extension -> invalid
+   extension; .ts readable only), the nothing-to-write error, and - for the SubRip pair - reading back what was
+   written (C01).  The 42 format pairs, the operation sequences and the CLI are decided on the implementation by
+   the harness (own encoders for every source format, destination re-read and compared with the composed
+   specifications of the operations): correspondence/exploration, not proof, until the other codec models exist. *)
+From Coq Require Import List NArith.
+From Astisub Require Import Kit.Base Kit.Str Model.Files Model.Srt Proofs.FilesProofs.
+Import ListNotations.
+
+Theorem C07_case_insensitive : forall name, reader_for (to_lower name) = reader_for name /\ writer_for (to_lower name) = writer_for name.
+Proof. exact dispatch_case_insensitive. Qed.
+Theorem C07_unsupported_extension : forall name, fmt_of_ext (ext_of (to_lower name)) = None ->
+  reader_for name = Err EInvalidExt /\ writer_for name = Err EInvalidExt.
+Proof. exact unsupported_extension. Qed.
+Theorem C07_ts_read_only : forall name, fmt_of_ext (ext_of (to_lower name)) = Some FTs ->
+  reader_for name = Ok FTs /\ writer_for name = Err EInvalidExt.
+Proof. exact ts_read_only. Qed.
+Theorem C07_nothing_to_write_srt : write_srt [] = Err ENothingToWrite.
+Proof. reflexivity. Qed.
+
+Example C07_dispatch_examples :
+  reader_for [47;116;109;112;47;65;46;83;82;84]%N = Ok FSrt /\          (* /tmp/A.SRT *)
+  writer_for [120;46;116;115]%N = Err EInvalidExt /\                     (* x.ts *)
+  reader_for [97;46;98;47;99]%N = Err EInvalidExt /\                     (* a.b/c : the dot is in a directory name *)
+  writer_for [120;46;65;115;115]%N = Ok FSsa.                            (* x.Ass *)
+Proof. repeat split; reflexivity. Qed.
+
+Print Assumptions C07_case_insensitive.
+Print Assumptions C07_unsupported_extension.
+Print Assumptions C07_ts_read_only.
+Print Assumptions C07_nothing_to_write_srt.
